@@ -56,6 +56,7 @@ const (
 	qInsIg  = `insert into shovel.integrations(name, conf) values ($1, $2)`
 	qInsSrc = `insert into shovel.sources(chain_id, name, url) values ($1, $2, $3)`
 	qLock   = `select pg_advisory_xact_lock($1)`
+	qPrune  = `delete from shovel.task_updates where (src_name, ig_name, num) not in ( select src_name, ig_name, num from ( select src_name, ig_name, num, row_number() over(partition by src_name, ig_name order by num desc) as rn from shovel.task_updates ) as s where rn <= $1 )`
 )
 
 const identPat = `(?:[\pL_][\pL\pN_$]*|"[^"]+")`
@@ -271,6 +272,47 @@ func (s *session) planFor(raw string) (*plan, *PgError) {
 		p.params = []uint32{pgtype.Int8OID}
 		p.fields = []field{{"pg_advisory_xact_lock", pgtype.TextOID}}
 		p.run = func(s *session, a []any) (string, [][]any, *PgError) { return "SELECT 1", [][]any{{""}}, nil }
+	case n == qPrune:
+		// keep the newest $1 positions of every (src_name, ig_name)
+		p.kind = "prune-positions"
+		p.params = []uint32{pgtype.Int8OID}
+		p.run = func(s *session, a []any) (string, [][]any, *PgError) {
+			keep, _ := a[0].(int64)
+			s.db.mu.Lock()
+			defer s.db.mu.Unlock()
+			t, vis := s.visibleLocked("shovel.task_updates")
+			if t == nil {
+				return "", nil, pgerr("42P01", `relation "shovel.task_updates" does not exist`)
+			}
+			si, ii, ci := t.ColIdx("src_name"), t.ColIdx("ig_name"), t.ColIdx("num")
+			groups := map[string][]*Row{}
+			for _, r := range vis {
+				k := fmt.Sprintf("%v|%v", r.Vals[si], r.Vals[ii])
+				groups[k] = append(groups[k], r)
+			}
+			auto := s.tx == nil
+			if auto {
+				s.tx = newTx()
+			}
+			n := 0
+			for _, rows := range groups {
+				sort.Slice(rows, func(i, j int) bool { return Cmp(rows[i].Vals[ci], rows[j].Vals[ci]) > 0 })
+				for i, r := range rows {
+					if int64(i) < keep {
+						continue
+					}
+					n++
+					s.tx.wrote = true
+					s.tx.deleted[r.ID] = true
+				}
+			}
+			if auto {
+				if err := s.commitLocked(); err != nil {
+					return "", nil, err
+				}
+			}
+			return fmt.Sprintf("DELETE %d", n), nil, nil
+		}
 	case n == qInfo:
 		p.kind = "info-schema"
 		p.params = []uint32{pgtype.TextOID}
